@@ -264,7 +264,7 @@ package yqlib
 //@   ensures @child-fresh v != nil && fresh(v) && v.Parent == n && sameScalarAttrs(v, rawChild) && len(v.Content) == len(old(rawChild.Content))
 //@   ensures @key-fresh v.Key != nil && fresh(v.Key) && v.Key.Parent == n
 //@   ensures @key-index {C03,C16} implies(old(rawChild.Key) == nil, v.Key.Value == itoa(n0))
-//@   ensures @key-kept implies(old(rawChild.Key) != nil, v.Key.Value == old(rawChild.Key.Value))
+//@   ensures @key-kept implies(old(rawChild.Key) != nil && n.Kind != SequenceNode, v.Key.Value == old(rawChild.Key.Value))
 //@   ensures @a-sequence-element-is-keyed-by-its-position {C03,C16} implies(n.Kind == SequenceNode, v.Key.Value == itoa(n0))
 
 //@ func (*CandidateNode).AddKeyValueChild
